@@ -385,6 +385,7 @@ func inlineRound(pkgs []*packages.Package, overlay map[string][]byte, testIdents
 		text       string
 	}
 	perFile := map[string][]splice{}
+	newImports := map[string]map[string]string{}
 	fileOf := map[string]*ast.File{}
 	pkgOfFile := map[string]*packages.Package{}
 	usedStmt := map[ast.Stmt]bool{}
@@ -442,6 +443,12 @@ func inlineRound(pkgs []*packages.Package, overlay map[string][]byte, testIdents
 			fn := s.pkg.Fset.File(s.file.Pos()).Name()
 			fileOf[fn] = s.file
 			pkgOfFile[fn] = s.pkg
+			for path, name := range ex.addImports {
+				if newImports[fn] == nil {
+					newImports[fn] = map[string]string{}
+				}
+				newImports[fn][path] = name
+			}
 			perFile[fn] = append(perFile[fn], splice{s.pkg.Fset.Position(s.stmt.Pos()).Offset, s.pkg.Fset.Position(endPos).Offset, text})
 		}
 		inlinedAll[obj] = all
@@ -484,6 +491,23 @@ func inlineRound(pkgs []*packages.Package, overlay map[string][]byte, testIdents
 		buf := append([]byte{}, src...)
 		for _, e := range sp {
 			buf = append(buf[:e.start], append([]byte(e.text), buf[e.end:]...)...)
+		}
+		// imports the inlined bodies need in this file: a declaration of their own right after the package clause
+		if imps := newImports[fn]; len(imps) > 0 {
+			if f := fileOf[fn]; f != nil {
+				at := pkgOfFile[fn].Fset.Position(f.Name.End()).Offset
+				// the package clause lies before every splice (edits do not move it)
+				var decl strings.Builder
+				var paths []string
+				for p := range imps {
+					paths = append(paths, p)
+				}
+				sort.Strings(paths)
+				for _, p := range paths {
+					fmt.Fprintf(&decl, "\nimport %s %q", imps[p], p)
+				}
+				buf = append(buf[:at], append([]byte(decl.String()), buf[at:]...)...)
+			}
 		}
 		out[fn] = pruneImports(buf, pkgOfFile[fn])
 	}
